@@ -232,6 +232,12 @@ Fixpoint nodupZ (l : list Z) : bool :=
 Definition memNN (p : N * N) (l : list (N * N)) : bool :=
   existsb (fun q => N.eqb (fst p) (fst q) && N.eqb (snd p) (snd q)) l.
 
+(** what a recorded finding says the token of row [m] resolves to: the row with id [j] *)
+Definition back_is (rows : list member) (m : member) (j : N) : bool :=
+  match from_xml rows (token (canon_of rows m)) with Ok m' => N.eqb (m_id m') j | Err _ => false end.
+Definition back_of (kb : list (N * N)) (i : N) : option N :=
+  match find (fun q => N.eqb (fst q) i) kb with Some q => Some (snd q) | None => None end.
+
 (** rows whose member has no XML value are outside the property *)
 Definition bij_row_ok (rows : list member) (m : member) : bool :=
   negb (has_xml (canon_of rows m)) || bij_ok rows m.
